@@ -183,6 +183,11 @@ class Mon:
                 obj = cls({"enc": enc, "zip": "DEF"}, data)
                 obj.add_recipient({"alg": alg}, jk)
                 t = call(j.jwe.encrypt_json, obj, None, algorithms=allow)
+                if t.ok and n % 2 == 0:
+                    # the object is encrypted once more (a retry): what is judged is the second token - the plaintext is compressed for each token anew
+                    t = call(j.jwe.encrypt_json, obj, None, algorithms=allow)
+                    desc["label"] = (label or "") + "+second-encryption-of-one-object"
+                    ctx.count("second_encryptions_of_one_object")
             if not t.ok:
                 ctx.violation(f"encrypt-fails:{t.key}", f"encrypting {n} octets with zip=DEF failed: {t.exc!r}", desc)
                 return
